@@ -318,6 +318,7 @@ pub(crate) fn lib_trace_roots_step() {
 /// The counter word is concrete per case (finalized bit x count class): with a symbolic counter word
 /// CBMC cannot resolve the vtable read in CcBox::vtable() (it depends on bit 15 of that word) and
 /// explores every function of matching signature.  The tracing word (mark + tracing counter) is symbolic.
+#[cfg(feature = "finalization")]
 fn finalize_inner_case(c0: u16) {
     let h = ccp::mk_node(0);
     let x = ccp::raw_of(&h);
